@@ -50,6 +50,10 @@ type c15Case struct {
 	SlowLists bool               `json:"slowlists,omitempty"` // file lists take 60 ms to write
 }
 
+// operations that have not returned by then are reported as hung (a loaded machine under the race detector is slow: the
+// limit is generous, a deadlock never returns)
+var c15Deadline = 90 * time.Second
+
 var c15Raw = true // results are kept readable in the case; digests go to Coq
 
 func c15Short(s string) string {
@@ -273,7 +277,7 @@ func c15Run(cs *c15Case, r *gen.Rand) {
 		cs.Ops[i].Done, cs.Ops[i].Err, cs.Ops[i].Conc = false, "", ""
 	}
 	close(start)
-	deadline := 40 * time.Second
+	deadline := c15Deadline
 	if cs.SlowLists {
 		deadline = 300 * time.Second
 	}
@@ -345,6 +349,9 @@ func init() {
 				key = string(j)
 			}
 			c.Emit(cs, c15Coq(cs), key, fmt.Sprintf("ops=%d procs=%d races=%d", len(cs.Ops), cs.Procs, cs.Races), "concurrent")
+		}
+		if !c.Quick() {
+			c15Deadline = 240 * time.Second
 		}
 		r := c.Rng.Fork()
 		if len(c.Replay) > 0 {
